@@ -1,2 +1,90 @@
-import IsalVerif.Impl.GcmStream
-/-! C07 — GCM streaming equals one-shot (refinement proof in progress; see DESIGN.md status) -/
+import IsalVerif.Lemmas.GcmStreamLaws
+/-! Property C07: *initialising a GCM message, feeding the data through any sequence of update calls (any
+    lengths, including zero and lengths that leave partial 16-byte blocks between calls) and finalising
+    produces the same output bytes and the same tag as the one-shot call on the concatenated data, for
+    encryption and decryption* — for the streaming context model `Impl/GcmStream.lean` against the
+    specification `Spec/Gcm.lean`.  Final theorems only; proofs are in `Lemmas/GcmStreamLaws.lean`.
+
+    No bound on the lengths is needed: the model keeps `aadLen`, `inLen` and the two bit lengths modulo 2⁶⁴,
+    and the specification's length block `[len(A)]₆₄ ‖ [len(C)]₆₄` is built with `UInt64.ofNat (8 * n)`, which
+    reduces modulo 2⁶⁴ as well, so both sides agree for all lengths. -/
+namespace IsalVerif.C07
+open Aes Gcm GcmStream
+
+/-- C07, eager variant (all families but vaes_avx512): `stream` = one-shot GCM on the concatenated parts,
+    for a well-formed key schedule and a 12-byte IV; `dec` selects decryption. -/
+theorem C07 (rks : List Bytes) (hk : ∀ k ∈ rks, k.length = 16) (iv aad : Bytes) (hiv : iv.length = 12)
+    (parts : List Bytes) (t : Nat) (dec : Bool) :
+    GcmStream.stream rks dec iv aad parts t =
+      (if dec then Gcm.gcmDecExp rks iv aad parts.flatten t else Gcm.gcmEncExp rks iv aad parts.flatten t) :=
+  streamWith_eq hk hiv false dec aad parts t
+
+/-- C07, `lazy256` variant (vaes_avx512: an update that finds exactly 256 bytes left keeps the last block
+    pending with `pbLen = 16`): `GcmStream.streamLazy` (defined in `Lemmas/GcmStreamLaws.lean` as the same fold
+    with `update … (lazy256 := true)`) = one-shot GCM. -/
+theorem C07_lazy (rks : List Bytes) (hk : ∀ k ∈ rks, k.length = 16) (iv aad : Bytes) (hiv : iv.length = 12)
+    (parts : List Bytes) (t : Nat) (dec : Bool) :
+    GcmStream.streamLazy rks dec iv aad parts t =
+      (if dec then Gcm.gcmDecExp rks iv aad parts.flatten t else Gcm.gcmEncExp rks iv aad parts.flatten t) :=
+  streamWith_eq hk hiv true dec aad parts t
+
+/-- hence the two variants produce the same bytes and tag -/
+theorem C07_lazy_eq_eager (rks : List Bytes) (hk : ∀ k ∈ rks, k.length = 16) (iv aad : Bytes)
+    (hiv : iv.length = 12) (parts : List Bytes) (t : Nat) (dec : Bool) :
+    GcmStream.streamLazy rks dec iv aad parts t = GcmStream.stream rks dec iv aad parts t := by
+  rw [C07 rks hk iv aad hiv, C07_lazy rks hk iv aad hiv]
+
+/-- C07 on raw keys (any key: `keyExpansion` is always well formed): streaming = `gcmEnc` / `gcmDec`. -/
+theorem C07_key (key iv aad : Bytes) (hiv : iv.length = 12) (parts : List Bytes) (t : Nat) :
+    GcmStream.stream (keyExpansion key) false iv aad parts t = Gcm.gcmEnc key iv aad parts.flatten t ∧
+    GcmStream.stream (keyExpansion key) true iv aad parts t = Gcm.gcmDec key iv aad parts.flatten t ∧
+    GcmStream.streamLazy (keyExpansion key) false iv aad parts t = Gcm.gcmEnc key iv aad parts.flatten t ∧
+    GcmStream.streamLazy (keyExpansion key) true iv aad parts t = Gcm.gcmDec key iv aad parts.flatten t :=
+  ⟨C07 _ (keyExpansion_mem_length key) iv aad hiv parts t false,
+   C07 _ (keyExpansion_mem_length key) iv aad hiv parts t true,
+   C07_lazy _ (keyExpansion_mem_length key) iv aad hiv parts t false,
+   C07_lazy _ (keyExpansion_mem_length key) iv aad hiv parts t true⟩
+
+/-! ### non-vacuity -/
+
+/-- FIPS-197 Appendix A.1 / C.1 key and its expanded key -/
+def key128 : Bytes := [0x00,0x01,0x02,0x03,0x04,0x05,0x06,0x07,0x08,0x09,0x0a,0x0b,0x0c,0x0d,0x0e,0x0f]
+def rks128 : List Bytes := [
+  [0, 1, 2, 3, 4, 5, 6, 7, 8, 9, 10, 11, 12, 13, 14, 15],
+  [214, 170, 116, 253, 210, 175, 114, 250, 218, 166, 120, 241, 214, 171, 118, 254],
+  [182, 146, 207, 11, 100, 61, 189, 241, 190, 155, 197, 0, 104, 48, 179, 254],
+  [182, 255, 116, 78, 210, 194, 201, 191, 108, 89, 12, 191, 4, 105, 191, 65],
+  [71, 247, 247, 188, 149, 53, 62, 3, 249, 108, 50, 188, 253, 5, 141, 253],
+  [60, 170, 163, 232, 169, 159, 157, 235, 80, 243, 175, 87, 173, 246, 34, 170],
+  [94, 57, 15, 125, 247, 166, 146, 150, 167, 85, 61, 193, 10, 163, 31, 107],
+  [20, 249, 112, 26, 227, 95, 226, 140, 68, 10, 223, 77, 78, 169, 192, 38],
+  [71, 67, 135, 53, 164, 28, 101, 185, 224, 22, 186, 244, 174, 191, 122, 210],
+  [84, 153, 50, 209, 240, 133, 87, 104, 16, 147, 237, 156, 190, 44, 151, 78],
+  [19, 17, 29, 127, 227, 148, 74, 23, 243, 7, 167, 139, 77, 43, 48, 197]]
+def iv12 : Bytes := [0xca,0xfe,0xba,0xbe,0xfa,0xce,0xdb,0xad,0xde,0xca,0xf8,0x88]
+def aad5 : Bytes := [9, 8, 7, 6, 5]
+/-- a 3-part split with partial blocks: 5 + 14 + 3 bytes (the second call completes block 0 and leaves 3
+    bytes of block 1 pending; the third adds 3 more) -/
+def p1 : Bytes := [1, 2, 3, 4, 5]
+def p2 : Bytes := [6, 7, 8, 9, 10, 11, 12, 13, 14, 15, 16, 17, 18, 19]
+def p3 : Bytes := [20, 21, 22]
+
+example : keyExpansion key128 = rks128 := by decide +kernel
+
+/-- the hypotheses of `C07` hold for this data … -/
+example : (∀ k ∈ rks128, k.length = 16) ∧ iv12.length = 12 := by decide
+
+/-- … and the equation is also confirmed by direct kernel evaluation of both sides (independently of the proof) -/
+example : GcmStream.stream rks128 false iv12 aad5 [p1, p2, p3] 16
+    = Gcm.gcmEncExp rks128 iv12 aad5 (p1 ++ p2 ++ p3) 16 := by decide +kernel
+
+example : GcmStream.streamLazy rks128 true iv12 aad5 [p1, [], p2, p3] 12
+    = Gcm.gcmDecExp rks128 iv12 aad5 [p1, [], p2, p3].flatten 12 :=
+  C07_lazy rks128 (by decide) iv12 aad5 (by decide) _ 12 true
+
+/-- the `lazy256` path is really taken on a 256-byte update: the last block stays pending (`pbLen = 16`),
+    whereas the eager variant leaves nothing pending -/
+example : (update rks128 false (init rks128 iv12 aad5) (List.replicate 256 7) (lazy256 := true)).1.pbLen = 16 ∧
+    (update rks128 false (init rks128 iv12 aad5) (List.replicate 256 7)).1.pbLen = 0 := by decide +kernel
+
+end IsalVerif.C07
